@@ -16,7 +16,7 @@ use std::time::{Duration, Instant};
 
 fn alpha(tx: bool) -> Alpha {
     let mut a = Alpha::empty();
-    a.ins = vec![(0, 0, 0), (0, 2, 3)];
+    a.ins = vec![(0, 0, 0), (0, 2, 3), (0, 1, 4)];
     a.rem = vec![(0, 0)];
     a.clear = vec![0];
     let it = |ks, k, v| Item { ks, k, v };
@@ -85,6 +85,14 @@ pub fn run(tier: &str) -> i32 {
         let (cname, cfg, _, _) = &cfgs[job.ci];
         let nprobe = job.prog.len() - if cfgs[job.ci].2 { PROBES.len() + 1 } else { PROBES.len() };
         // model states after each op (fault-free, in-process)
+        // expected final state when nothing fails at all (short writes that write_all completes)
+        let full_final = match record(fresh_dir(), cfg.clone(), &job.prog) {
+            Ok((w, h)) => {
+                drop(w);
+                h.states.last().cloned()
+            }
+            Err(_) => None,
+        };
         let hist = match record(fresh_dir(), cfg.clone(), &job.prog[..nprobe]) {
             Ok((w, h)) => {
                 drop(w);
@@ -160,6 +168,17 @@ pub fn run(tier: &str) -> i32 {
                 } else {
                     vec![&hist.states[nprobe]]
                 };
+                if !any_err {
+                    if let Some(ff) = &full_final {
+                        if *ff != content {
+                            report(
+                                "reopen.acknowledged_write_missing",
+                                format!("no operation reported an error (fault on journal op #{}), yet after reopen the state is {} instead of {}", job.n, show_content(&content), show_content(ff)),
+                            );
+                            return;
+                        }
+                    }
+                }
                 if any_err && fi < nprobe && !ok_states.iter().any(|s| **s == content) {
                     report(
                         "reopen.wrong_state",
@@ -194,9 +213,9 @@ pub fn run(tier: &str) -> i32 {
     o.assumptions = vec![
         "faults on journal files only (the property is about the journal); single-threaded driver (the multi-writer clause is covered by the E3 body of C14-style writers only structurally)".into(),
     ];
-    let required = jobs.iter().filter(|j| j.prog.len() <= PROBES.len() + 2).count();
+    let required = jobs.iter().filter(|j| j.prog.len() <= PROBES.len() + 1).count();
     if to && done < required {
-        o.machinery_errors.push(format!("time cap hit after {done} injections, before the required core of {required} (programs of depth <= 1-2) finished"));
+        o.machinery_errors.push(format!("time cap hit after {done} injections, before the required core of {required} (programs of depth 1) finished"));
     }
     if tally.len() < 2 {
         o.machinery_errors.push("vacuous: fewer than 2 distinct outcomes".into());
